@@ -105,7 +105,7 @@ type batchWorld struct {
 
 func newBatchWorld(c *Ctx) (*batchWorld, error) {
 	w := NewWorld()
-	if _, err := w.AddToken("TT", ChanOpts{}); err != nil {
+	if _, err := w.AddSvcToken("TT", ChanOpts{}); err != nil {
 		return nil, err
 	}
 	bw := &batchWorld{w: w, nonce: 1700000000000}
@@ -163,8 +163,16 @@ func (bw *batchWorld) modelValue(k string, v []byte) string {
 		}
 		bi := 998
 		if len(p.GetArgs()) > 0 {
+			last := p.GetArgs()[len(p.GetArgs())-1]
+			if p.GetMethod() == svcScriptRun {
+				// the gRPC-routed method carries the script as a JSON string
+				var un string
+				if json.Unmarshal([]byte(last), &un) == nil {
+					last = un
+				}
+			}
 			for i, s := range bw.scripts {
-				if s == p.GetArgs()[len(p.GetArgs())-1] {
+				if s == last {
 					bi = i
 				}
 			}
